@@ -294,7 +294,7 @@ def run(ctx):
         wops = 1 + len(sz) + 2
         final3 = final_path(n3)
         full3 = traces[n3]["real"][os.path.basename(final3)] if n3 in traces else None
-        n_sched = ctx.n(24, 400)
+        n_sched = ctx.n(24, 200)
         for si in range(n_sched):
             cf.clear_dir(cdir)
             init = None
